@@ -46,7 +46,7 @@ type apiFacts struct {
 	groupBody string
 }
 
-func recvName(fd *ast.FuncDecl) string {
+func rtRecvName(fd *ast.FuncDecl) string {
 	if fd.Recv == nil || len(fd.Recv.List) != 1 {
 		return ""
 	}
@@ -61,20 +61,20 @@ func recvName(fd *ast.FuncDecl) string {
 	return ""
 }
 
-func exprString(e ast.Expr) string {
+func rtExprString(e ast.Expr) string {
 	switch x := e.(type) {
 	case *ast.Ident:
 		return x.Name
 	case *ast.SelectorExpr:
-		return exprString(x.X) + "." + x.Sel.Name
+		return rtExprString(x.X) + "." + x.Sel.Name
 	case *ast.IndexExpr:
-		return exprString(x.X) + "[" + exprString(x.Index) + "]"
+		return rtExprString(x.X) + "[" + rtExprString(x.Index) + "]"
 	case *ast.BasicLit:
 		return x.Value
 	case *ast.StarExpr:
-		return "*" + exprString(x.X)
+		return "*" + rtExprString(x.X)
 	case *ast.CallExpr:
-		return exprString(x.Fun) + "(…)"
+		return rtExprString(x.Fun) + "(…)"
 	}
 	return "?"
 }
@@ -88,11 +88,11 @@ func classifyBroker(fd *ast.FuncDecl) string {
 	ctrl := clusterName + ".Brokers[" + clusterName + ".Controller]"
 	if len(fd.Body.List) == 1 {
 		if rs, ok := fd.Body.List[0].(*ast.ReturnStmt); ok && len(rs.Results) == 2 {
-			s := exprString(rs.Results[0])
-			if s == ctrl && exprString(rs.Results[1]) == "nil" {
+			s := rtExprString(rs.Results[0])
+			if s == ctrl && rtExprString(rs.Results[1]) == "nil" {
 				return "controller"
 			}
-			if strings.HasPrefix(s, clusterName+".Brokers[r.") && exprString(rs.Results[1]) == "nil" {
+			if strings.HasPrefix(s, clusterName+".Brokers[r.") && rtExprString(rs.Results[1]) == "nil" {
 				return "field"
 			}
 		}
@@ -108,14 +108,14 @@ func classifyBroker(fd *ast.FuncDecl) string {
 				usesAtoi = true
 			}
 		case *ast.RangeStmt:
-			if exprString(x.X) == "r.Topics" {
+			if rtExprString(x.X) == "r.Topics" {
 				rangesTopics = true
 			}
 		case *ast.IndexExpr:
-			if exprString(x) == "r.Topics[0]" {
+			if rtExprString(x) == "r.Topics[0]" {
 				indexZero = true
 			}
-			if exprString(x) == ctrl {
+			if rtExprString(x) == ctrl {
 				usesCtrl = true
 			}
 		}
@@ -212,7 +212,7 @@ func switchCases(repo, file, recv, fn string) ([]string, error) {
 	}
 	for _, d := range f.Decls {
 		fd, ok := d.(*ast.FuncDecl)
-		if !ok || fd.Body == nil || fd.Name.Name != fn || recvName(fd) != recv {
+		if !ok || fd.Body == nil || fd.Name.Name != fn || rtRecvName(fd) != recv {
 			continue
 		}
 		var out []string
@@ -229,7 +229,7 @@ func switchCases(repo, file, recv, fn string) ([]string, error) {
 						out = append(out, "default")
 					}
 					for _, e := range cc.List {
-						out = append(out, exprString(e))
+						out = append(out, rtExprString(e))
 					}
 				}
 				return false
@@ -294,7 +294,7 @@ func extractRouting(repo, root string) error {
 						if x.Recv == nil && x.Name.Name == "init" {
 							ast.Inspect(x.Body, func(n ast.Node) bool {
 								if c, ok := n.(*ast.CallExpr); ok {
-									switch exprString(c.Fun) {
+									switch rtExprString(c.Fun) {
 									case "protocol.Register":
 										registered = true
 									case "protocol.RegisterOverride":
@@ -306,14 +306,14 @@ func extractRouting(repo, root string) error {
 							})
 							continue
 						}
-						if recvName(x) != "Request" {
+						if rtRecvName(x) != "Request" {
 							continue
 						}
 						switch x.Name.Name {
 						case "ApiKey":
 							ast.Inspect(x.Body, func(n ast.Node) bool {
 								if rs, ok := n.(*ast.ReturnStmt); ok && len(rs.Results) == 1 {
-									s := exprString(rs.Results[0])
+									s := rtExprString(rs.Results[0])
 									a.keyName = strings.TrimPrefix(s, "protocol.")
 								}
 								return true
